@@ -176,6 +176,22 @@ pub fn corruptions(placement: &str, fen: &str, in_check: bool, rng: &mut Rng) ->
             }
         }
     }
+    // opponent left in check while the (consistent) en-passant square is KEPT: a knight of the side to move next to the enemy king
+    if tok[3] != "-" {
+        let (opp_king, own_knight) = if tok[1] == "w" { ('k', 'N') } else { ('K', 'n') };
+        if let Some(k) = cells.iter().position(|&c| c == opp_king) {
+            let (r, f) = ((k / 8) as i32, (k % 8) as i32);
+            for (dr, df) in [(1, 2), (2, 1), (-1, 2), (-2, 1), (1, -2), (2, -1), (-1, -2), (-2, -1)] {
+                let (a, b) = (r + dr, f + df);
+                if (0..8).contains(&a) && (0..8).contains(&b) && cells[(a * 8 + b) as usize] == '.' && sq_name((a * 8 + b) as usize) != tok[3] {
+                    let mut c = cells.clone();
+                    c[(a * 8 + b) as usize] = own_knight;
+                    out.push(("oppcheck_ep".to_string(), join(&c, tok[1], tok[2], tok[3])));
+                    break;
+                }
+            }
+        }
+    }
     // each right without rook / without king
     for (right, king, rook, home, corner) in
         [('K', 'K', 'R', 4usize, 7usize), ('Q', 'K', 'R', 4, 0), ('k', 'k', 'r', 60, 63), ('q', 'k', 'r', 60, 56)]
